@@ -12,6 +12,7 @@ Definition fline : Type := line (T:=float).
 Definition err_eqb (a b : err) : bool :=
   match a, b with
   | EZeroDiv, EZeroDiv | ELattice, ELattice | EAssert, EAssert | ELoop, ELoop | EStop, EStop => true
+  | EOther, EOther => false
   | _, _ => false
   end.
 
